@@ -181,6 +181,24 @@ func Ite(c, a, b Term) Term {
 			return Not(c)
 		}
 	}
+	if a.Sort.IsBV() && a.Sort == b.Sort {
+		// ite(c, x+p, x+q) = x + ite(c, p, q) (and with x itself as x+0): offsets and
+		// lengths of merged sub-slices keep their common base, which lets the solvers'
+		// arithmetic normalisation cancel it
+		w := a.Sort.Width()
+		for _, op := range []string{"bvadd", "bvsub"} {
+			pa, qa, oka := splitApp(expandDef(a.S), op)
+			pb, qb, okb := splitApp(expandDef(b.S), op)
+			switch {
+			case oka && okb && pa == pb:
+				return BVBin(op, termOfText(pa, a.Sort), Ite(c, termOfText(qa, a.Sort), termOfText(qb, a.Sort)))
+			case oka && pa == b.S:
+				return BVBin(op, b, Ite(c, termOfText(qa, a.Sort), BVLit(0, w)))
+			case okb && pb == a.S:
+				return BVBin(op, a, Ite(c, BVLit(0, w), termOfText(qb, a.Sort)))
+			}
+		}
+	}
 	return app(a.Sort, "ite", c, a, b)
 }
 
@@ -458,7 +476,23 @@ type namedAxiom struct {
 }
 
 func NewCtx() *Ctx {
-	return &Ctx{sorts: map[string]bool{}, declIdx: map[string]int{}, defIdx: map[string]int{}, defByS: map[string]string{}}
+	c := &Ctx{sorts: map[string]bool{}, declIdx: map[string]int{}, defIdx: map[string]int{}, defByS: map[string]string{}}
+	curCtx = c
+	return c
+}
+
+// curCtx is the context of the function being executed (functions are executed
+// one at a time); term constructors use it to look through shared definitions.
+var curCtx *Ctx
+
+// expandDef returns the text a shared name ($dN) stands for.
+func expandDef(s string) string {
+	if curCtx != nil && strings.HasPrefix(s, "$d") {
+		if i, ok := curCtx.defIdx[s]; ok {
+			return curCtx.defs[i].body
+		}
+	}
+	return s
 }
 
 var identSanitizer = regexp.MustCompile(`[^A-Za-z0-9_.$!]`)
